@@ -1,10 +1,14 @@
 #!/usr/bin/env python3
-"""Generates unit.json for lpf_helpers (the loop invariants share many textual pieces).  Run by hand after edits:
-   python3 units/lpf_helpers/gen_unit_json.py
+"""Generates unit.json for lpf_helpers (the loop invariants share many textual pieces, and there is one
+LPFhasKeyword instance per keyword literal).  Run by hand after edits:  python3 units/lpf_helpers/gen_unit_json.py
 unit.json is the file the runner reads; this script is only a convenience for the unit's author."""
-import json, os
+import json
+import os
+import re
 
 HPP = "src/soplex/spxlpbase_real.hpp"
+CAP = 9000            # > SOPLEX_LPF_MAX_LINE_LEN (8192); the unit refuses to run otherwise (contract.c)
+
 
 def sl(name, sig, must=None):
     d = {"as": name + ".inc", "file": HPP, "sig": sig}
@@ -12,42 +16,136 @@ def sl(name, sig, must=None):
         d["must_contain"] = must
     return d
 
+
 S_isSpace = sl("LPFisSpace", r"static\s+inline\s+bool\s+LPFisSpace\s*\(\s*int\s+c\s*\)")
 S_isValue = sl("LPFisValue", r"static\s+inline\s+bool\s+LPFisValue\s*\(\s*const\s+char\*\s+s\s*\)")
 S_isSense = sl("LPFisSense", r"static\s+inline\s+bool\s+LPFisSense\s*\(\s*const\s+char\*\s+s\s*\)")
 COMMON = [S_isSpace, S_isValue, S_isSense]
+S_isColName = sl("LPFisColName", r"static\s+inline\s+bool\s+LPFisColName\s*\(\s*const\s+char\*\s+s\s*\)", [r"strchr\("])
+S_isInfinity = sl("LPFisInfinity", r"static\s+inline\s+bool\s+LPFisInfinity\s*\(\s*const\s+char\*\s+s\s*\)")
+S_isFree = sl("LPFisFree", r"static\s+inline\s+bool\s+LPFisFree\s*\(\s*const\s+char\*\s+s\s*\)")
+S_readSense = sl("LPFreadSense", r"static\s+inline\s+int\s+LPFreadSense\s*\(\s*char\*&\s+pos\s*\)")
+S_hasKeyword = sl("LPFhasKeyword", r"static\s+inline\s+bool\s+LPFhasKeyword\s*\(\s*char\*&\s+pos\s*,\s*const\s+char\*\s+keyword\s*\)")
+S_hasRowName = sl("LPFhasRowName", r"static\s+inline\s+bool\s+LPFhasRowName\s*\(\s*char\*&\s+pos\s*,\s*NameSet\*\s+rownames\s*\)",
+                  [r"strchr\(pos,\s*':'\)", r"char\s+name\[SOPLEX_LPF_MAX_LINE_LEN\]", r"rownames->add\(name\)"])
+S_readInfinity = sl("LPFreadInfinity", r"template\s*<class\s+R>\s*static\s+R\s+LPFreadInfinity\s*\(\s*char\*&\s+pos\s*\)",
+                    [r"LPFhasKeyword\(\+\+pos,\s*\"inf\[inity\]\"\)"])
+S_readValue = sl("LPFreadValue", r"template\s*<class\s+R>\s*static\s+R\s+LPFreadValue\s*\(\s*char\*&\s+pos\s*,\s*SPxOut\*\s+spxout\s*\)",
+                 [r"atof\(tmp\)", r"char\s+tmp\[SOPLEX_LPF_MAX_LINE_LEN\]"])
+S_readColName = sl("LPFreadColName",
+                   r"template\s*<class\s+R>\s*static\s+int\s+LPFreadColName\s*\(\s*char\*&\s+pos\s*,\s*NameSet\*\s+colnames\s*,\s*LPColSetBase<R>&\s+colset\s*,"
+                   r"\s*const\s+LPColBase<R>\*\s+emptycol\s*,\s*SPxOut\*\s+spxout\s*\)",
+                   [r"char\s+name\[SOPLEX_LPF_MAX_LINE_LEN\]", r"colnames->number\(name\)", r"colnames->add\(name\)", r"colset\.add\(\*emptycol\)"])
 
-# ---- invariant building blocks (C expressions over ghost globals and body locals) -------------------
-DIG = lambda c: "('0'<=(%s) && (%s)<='9')" % (c, c)
-TOK = lambda c: "(%s || (%s)=='+' || (%s)=='-' || (%s)=='.' || (%s)=='e' || (%s)=='E')" % (DIG(c), c, c, c, c, c)
-# pointer-typed loop variables are havoc'd to arbitrary pointers: the invariant must pin the OBJECT (same_object) and talk about
-# offsets through __CPROVER_POINTER_OFFSET (a pointer difference on the havoc'd pointer would itself be checked and fail)
-# (__CPROVER_POINTER_OFFSET is mistyped in the loop-contract side file: integer casts of same-object pointers instead)
+# ---- invariant building blocks (C expressions over ghost globals and body locals) ---------------------------------
+# Pointer-typed loop variables are havoc'd to ARBITRARY pointers by the loop-contract instrumentation: the invariant must pin
+# the object (__CPROVER_same_object) and talk about offsets through integer casts (a pointer difference on the havoc'd pointer
+# would itself be checked and fail; __CPROVER_POINTER_OFFSET is mistyped in the loop-contract side file).
 OFF = lambda p, base="gp_line": "((long)(%s) - (long)(%s))" % (p, base)
+IN = lambda p, base="gp_line": "__CPROVER_same_object(%s, %s)" % (p, base)
 S_OFF = OFF("s")
 POS_OFF = OFF("*gpp_pos")
-S_IN = "__CPROVER_same_object(s, gp_line)"
-POS_IN = "__CPROVER_same_object(*gpp_pos, gp_line)"
+DIG = lambda c: "('0'<=(%s) && (%s)<='9')" % (c, c)
+TOK = lambda c: "(%s || (%s)=='+' || (%s)=='-' || (%s)=='.' || (%s)=='e' || (%s)=='E')" % (DIG(c), c, c, c, c, c)
+DELIM = lambda c: "((%s)=='+' || (%s)=='-' || (%s)=='.' || (%s)=='<' || (%s)=='>' || (%s)=='=' || (%s)==' ')" % ((c,) * 7)
+
 
 def scan_inv():
-    """invariants of the three digit-scanning loops of LPFreadValue"""
+    """invariants of the three digit-scanning loops of LPFreadValue (s walks the line, pos stays)"""
     return [
-        S_IN,
+        IN("s"),
         "g_off <= %s && %s <= g_len" % (S_OFF, S_OFF),
-        "%s == g_off" % POS_OFF,
         "(gp_line[g_off]=='+' || gp_line[g_off]=='-') ==> %s >= g_off + 1" % S_OFF,
         "(%s > g_off) ==> %s" % (S_OFF, TOK("s[-1]")),
         "(g_off + g_k < %s) ==> %s" % (S_OFF, TOK("v_k")),
         "(!has_digits && g_off + g_k < %s) ==> !%s" % (S_OFF, DIG("v_k")),
     ]
 
-readValue = {
+
+STRCHR_LIT_UNWIND = [{"function": "strchr", "loop": 0}]
+
+instances = []
+
+
+def pred(name, fn, slices, mutants, extra_defs=None, unwind=None):
+    d = {"name": name, "function": fn + "  [spxlpbase_real.hpp]", "defines": {"INST_" + name: ""},
+         "harness": "h_" + name, "enforce": "w_" + name, "slices": COMMON + slices, "min_obligations": 10, "tier": "quick",
+         "mutants": mutants}
+    if extra_defs:
+        d["defines"].update(extra_defs)
+    if unwind:
+        d["unwind"] = unwind
+        d["unwind_loops"] = STRCHR_LIT_UNWIND
+    instances.append(d)
+
+
+pred("isValue", "LPFisValue(const char* s)", [],
+     [{"name": "nine", "slice": "LPFisValue.inc", "find": "(*s <= '9')", "replace": "(*s < '9')"}])
+pred("isSense", "LPFisSense(const char* s)", [],
+     [{"name": "dup", "slice": "LPFisSense.inc", "find": "(*s == '>')", "replace": "(*s == '<')"}])
+pred("isColName", "LPFisColName(const char* s)", [S_isColName],
+     [{"name": "nul_is_name", "slice": "LPFisColName.inc", "find": "return false;", "replace": "return true;"},
+      {"name": "upper", "slice": "LPFisColName.inc", "find": "(*s <= 'Z')", "replace": "(*s < 'Z')"}],
+     {"STRCHR_LIT": ""}, unwind=24)
+pred("isInfinity", "LPFisInfinity(const char* s)", [S_isInfinity],
+     [{"name": "index", "slice": "LPFisInfinity.inc", "find": "tolower(s[3]) == 'f'", "replace": "tolower(s[4]) == 'f'"},
+      {"name": "noshortcircuit", "slice": "LPFisInfinity.inc", "find": "&& (tolower(s[2]) == 'n')", "replace": "& (tolower(s[2]) == 'n')"}])
+pred("isFree", "LPFisFree(const char* s)", [S_isFree],
+     [{"name": "index", "slice": "LPFisFree.inc", "find": "tolower(s[3]) == 'e'", "replace": "tolower(s[2]) == 'e'"},
+      {"name": "noshortcircuit", "slice": "LPFisFree.inc", "find": "&& (tolower(s[3]) == 'e')", "replace": "& (tolower(s[5]) == 'e')"}])
+
+instances.append({
+    "name": "readSense", "function": "LPFreadSense(char*& pos)  [spxlpbase_real.hpp]", "defines": {"INST_readSense": ""},
+    "harness": "h_readSense", "enforce": "w_readSense", "slices": COMMON + [S_readSense], "min_obligations": 30, "tier": "quick",
+    "mutants": [{"name": "keep_first", "slice": "LPFreadSense.inc", "find": "sense = *pos++;\n   else", "replace": "pos++;\n   else"},
+                {"name": "skip_twice", "slice": "LPFreadSense.inc", "find": "if(LPFisSpace(*pos))\n      pos++;", "replace": "if(LPFisSpace(*pos))\n      pos += 2;"}],
+})
+
+# ---- LPFhasKeyword: one instance per keyword literal at a call site ----------------------------------------------------
+KEYWORDS = [  # (instance suffix, literal, call-site pos expression)
+    ("max", "max[imize]", "pos"), ("min", "min[imize]", "pos"),
+    ("subject_to", "s[ubject][   ]t[o]", "pos"), ("such_that", "s[uch][    ]t[hat]", "pos"), ("st", "s[.][    ]t[.]", "pos"),
+    ("lazy", "lazy con[straints]", "pos"), ("bounds", "bound[s]", "pos"), ("binary", "bin[ary]", "pos"), ("binaries", "bin[aries]", "pos"),
+    ("generals", "gen[erals]", "pos"), ("integers", "int[egers]", "pos"), ("end", "end", "pos"), ("inf", "inf[inity]", "++pos"),
+]
+# only the bracket-free keyword is safe on the tree as it stands (see the finding in the property file)
+KW_QUICK = {"end"}
+kw_alt = "|".join(re.escape(k[1]) for k in KEYWORDS)
+for suffix, lit, posx in KEYWORDS:
+    kmin = len(re.sub(r"\[[^\]]*\]", "", lit))
+    kmax = len(lit.replace("[", "").replace("]", ""))
+    instances.append({
+        "name": "hasKeyword_" + suffix,
+        "function": "LPFhasKeyword(char*& pos, const char* keyword) with keyword = \"%s\"  [spxlpbase_real.hpp]" % lit,
+        "defines": {"INST_hasKeyword": "", "KW_MIN": str(kmin), "KW_MAX": str(kmax), "KW_FIRST": "'%s'" % lit[0]},
+        "harness": "h_hasKeyword", "enforce": "w_hasKeyword",
+        "slices": COMMON + [S_hasKeyword],
+        "extracts": [{"as": "keyword.inc", "file": HPP, "regex": r"LPFhasKeyword\(%s,\s*(\"%s\")\)" % (re.escape(posx), re.escape(lit)), "group": 1}],
+        # every loop of LPFhasKeyword advances i, which is bounded by the length of the (constant) keyword: complete unwinding
+        "unwind": len(lit) + 3,
+        "unwind_loops": [{"function": "LPFhasKeyword", "loop": 0}, {"function": "LPFhasKeyword", "loop": 1}, {"function": "LPFhasKeyword", "loop": 2}],
+        "min_obligations": 100, "tier": "quick" if suffix in KW_QUICK else "thorough",
+        "mutants": [
+            {"name": "no_word_end", "slice": "LPFhasKeyword.inc", "find": "if(keyword[i] == '\\0' && (", "replace": "if(keyword[i] == '\\0' || ("},
+            {"name": "advance", "slice": "LPFhasKeyword.inc", "find": "pos += k;", "replace": "pos += k + 1;"},
+        ],
+    })
+
+instances.append({
+    "name": "readInfinity", "function": "LPFreadInfinity<R>(char*& pos)  [spxlpbase_real.hpp]", "defines": {"INST_readInfinity": ""},
+    "harness": "h_readInfinity", "enforce": "w_readInfinity", "replace": ["LPFhasKeyword"],
+    "slices": COMMON + [S_readInfinity], "min_obligations": 30, "tier": "quick",
+    "mutants": [{"name": "sign", "slice": "LPFreadInfinity.inc", "find": "(*pos == '-') ? -1.0 : 1.0", "replace": "(*pos == '+') ? -1.0 : 1.0"},
+                {"name": "no_advance", "slice": "LPFreadInfinity.inc", "find": "LPFhasKeyword(++pos,", "replace": "LPFhasKeyword(pos,"}],
+})
+
+# ---- LPFreadValue -------------------------------------------------------------------------------------------------------
+instances.append({
     "name": "readValue",
     "function": "LPFreadValue<R>(char*& pos, SPxOut* spxout)  [spxlpbase_real.hpp]",
     "defines": {"INST_readValue": ""},
     "harness": "h_readValue", "enforce": "w_readValue",
-    "slices": COMMON + [sl("LPFreadValue", r"template\s*<class\s+R>\s*static\s+R\s+LPFreadValue\s*\(\s*char\*&\s+pos\s*,\s*SPxOut\*\s+spxout\s*\)",
-                           ["atof\\(tmp\\)", "char\\s+tmp\\[SOPLEX_LPF_MAX_LINE_LEN\\]"])],
+    "slices": COMMON + [S_readValue],
     "loops": [
         {"function": "LPFreadValue", "loop": 0, "locals": ["s", "has_digits"], "invariants": scan_inv(),
          "assigns": ["s", "has_digits"], "decreases": "g_len - %s" % S_OFF},
@@ -55,31 +153,127 @@ readValue = {
          "assigns": ["s", "has_digits"], "decreases": "g_len - %s" % S_OFF},
         {"function": "LPFreadValue", "loop": 2, "locals": ["s", "has_digits", "has_emptyexponent"], "invariants": scan_inv(),
          "assigns": ["s", "has_emptyexponent"], "decreases": "g_len - %s" % S_OFF},
-        {"function": "LPFreadValue", "loop": 3, "locals": ["s", "t", "tmp"],
+    ],
+    # the copy loop `for(t = tmp; pos != s; pos++) *t++ = *pos;` WRITES through a pointer it advances; a loop contract would havoc
+    # that pointer and every write through it becomes a case split over all objects (does not fit in memory).  It runs at most
+    # strlen(line) <= CAP-1 times, so it is unwound completely (with unwinding assertion) instead.
+    "unwind": CAP + 1,
+    "unwind_loops": [{"function": "LPFreadValue", "loop": 3}],
+    "min_obligations": 100,
+    "tier": "thorough",
+    "mutants": [
+        {"name": "no_terminator", "slice": "LPFreadValue.inc", "find": "*t = '\\0';", "replace": "*t = '0';"},
+        {"name": "sign", "slice": "LPFreadValue.inc", "find": "value = (*pos == '-') ? -1.0 : 1.0;", "replace": "value = (*pos == '+') ? -1.0 : 1.0;"},
+        {"name": "blank", "slice": "LPFreadValue.inc", "find": "if(LPFisSpace(*pos))\n      pos++;", "replace": "pos++;"},
+    ],
+})
+
+# ---- LPFreadColName -----------------------------------------------------------------------------------------------------
+instances.append({
+    "name": "readColName",
+    "function": "LPFreadColName<R>(char*& pos, NameSet* colnames, LPColSetBase<R>& colset, const LPColBase<R>* emptycol, SPxOut* spxout)  [spxlpbase_real.hpp]",
+    "defines": {"INST_readColName": "", "STRCHR_LIT": ""},
+    "harness": "h_readColName", "enforce": "w_readColName",
+    "slices": COMMON + [S_readColName],
+    "loops": [
+        {"function": "LPFreadColName", "loop": 0, "locals": ["s"],
          "invariants": [
-             POS_IN, "__CPROVER_same_object(t, tmp)",
-             "g_off <= %s && %s <= %s" % (POS_OFF, POS_OFF, S_OFF),
-             "%s == %s - g_off" % (OFF("t", "tmp"), POS_OFF),
-             "(g_k < %s) ==> tmp[g_k] == v_k" % OFF("t", "tmp"),
+             IN("s"),
+             "g_off <= %s && %s <= g_len" % (S_OFF, S_OFF),
+             "(%s > g_off) ==> (s[-1] != ' ' && s[-1] != 0)" % S_OFF,
+             "(g_off + g_k < %s) ==> (!%s && v_k != 0)" % (S_OFF, DELIM("v_k")),
          ],
-         "assigns": ["t", "*gpp_pos", "__CPROVER_object_whole(tmp)"], "decreases": "%s - %s" % (S_OFF, POS_OFF)},
+         "assigns": ["s"], "decreases": "g_len - %s" % S_OFF},
+        {"function": "LPFreadColName", "loop": 1, "locals": ["s", "i", "name"],
+         "invariants": [
+             IN("*gpp_pos"),
+             "g_off <= %s && %s <= %s" % (POS_OFF, POS_OFF, S_OFF),
+             "i == %s - g_off" % POS_OFF,
+             "(g_k < i) ==> name[g_k] == v_k",
+         ],
+         "assigns": ["i", "*gpp_pos", "__CPROVER_object_whole(name)"], "decreases": "%s - %s" % (S_OFF, POS_OFF)},
+    ],
+    "unwind": 12, "unwind_loops": STRCHR_LIT_UNWIND,
+    "min_obligations": 100,
+    "tier": "thorough",
+    "mutants": [
+        {"name": "no_terminator", "slice": "LPFreadColName.inc", "find": "name[i] = '\\0';", "replace": "name[i] = '0';"},
+        {"name": "unknown_added", "slice": "LPFreadColName.inc", "find": "if(emptycol == nullptr)", "replace": "if(emptycol != nullptr)"},
+        {"name": "index", "slice": "LPFreadColName.inc", "find": "colidx = colnames->num();", "replace": "colidx = colnames->num() - 1;"},
+    ],
+})
+
+# ---- LPFhasRowName ------------------------------------------------------------------------------------------------------
+P_OFF = OFF("p")
+instances.append({
+    "name": "hasRowName",
+    "function": "LPFhasRowName(char*& pos, NameSet* rownames)  [spxlpbase_real.hpp]",
+    "defines": {"INST_hasRowName": "", "STRCHR_LINE": ""},
+    "harness": "h_hasRowName", "enforce": "w_hasRowName",
+    "slices": COMMON + [S_hasRowName],
+    "loops": [
+        {"function": "strchr", "loop": 0, "locals": ["p", "chr"],
+         "invariants": [
+             IN("p"),
+             "g_off <= %s && %s <= g_len" % (P_OFF, P_OFF),
+             "(g_off + g_k < %s) ==> v_k != (char)chr" % P_OFF,
+         ],
+         "assigns": ["p"], "decreases": "g_len - %s" % P_OFF},
+        {"function": "LPFhasRowName", "loop": 0, "locals": ["end", "dcolpos"],
+         "invariants": ["-1 <= end && end <= dcolpos - 1"],
+         "assigns": ["end"], "decreases": "end + 1"},
+        {"function": "LPFhasRowName", "loop": 1, "locals": ["end", "srt"],
+         "invariants": ["-1 <= srt && srt <= end - 1"],
+         "assigns": ["srt"], "decreases": "srt + 1"},
+        {"function": "LPFhasRowName", "loop": 2, "locals": ["end", "srt", "i", "k", "name"],
+         "invariants": ["srt <= i && i <= end + 1", "k == i - srt", "(k > 0) ==> name[0] == gp_line[g_off + srt]"],
+         "assigns": ["i", "k", "__CPROVER_object_whole(name)"], "decreases": "end + 1 - i"},
     ],
     "min_obligations": 100,
     "tier": "thorough",
-    "mutants": [],
-}
+    "mutants": [
+        {"name": "behind_colon", "slice": "LPFhasRowName.inc", "find": "pos = &(pos[dcolpos + 1]);\n\n   return true;", "replace": "pos = &(pos[dcolpos + 2]);\n\n   return true;"},
+        {"name": "blank_name", "slice": "LPFhasRowName.inc", "find": "// go back to the non-space character\n   srt++;", "replace": "// go back to the non-space character\n   srt += 0;"},
+        {"name": "underflow", "slice": "LPFhasRowName.inc", "find": "for(end = dcolpos - 1; end >= 0; end--)", "replace": "for(end = dcolpos - 1; end >= -1; end--)"},
+    ],
+})
+
+kw_absent = r"LPFhasKeyword\(\s*(?:\+\+)?pos\s*,\s*\"(?!(?:%s)\")" % kw_alt
 
 unit = {
     "property": ["C13", "C12"],
     "desc": "LP-format reader helpers (spxlpbase_real.hpp): real bodies on a symbolic NUL-terminated line that may be longer than SOPLEX_LPF_MAX_LINE_LEN",
     "rmode": "double (IEEE, bit-precise); atof is a ghost-recording stub with unconstrained result",
-    "defines": {"CAP": "9000"}, "defines_small": {"CAP": "40"},
+    "defines": {"CAP": str(CAP)},
+    "defines_small": {"CAP": "40"},
     "flags": ["--bounds-check", "--pointer-check", "--signed-overflow-check", "--conversion-check"],
     "timeout_s": 280,
     "constants": [
         {"name": "SOPLEX_LPF_MAX_LINE_LEN", "file": HPP, "regex": r"#define\s+SOPLEX_LPF_MAX_LINE_LEN\s+(\d+)"},
+        {"name": "SOPLEX_DEFAULT_INFINITY", "file": "src/soplex/spxdefines.h", "regex": r"typedef\s+double\s+Real;.*?#define\s+SOPLEX_DEFAULT_INFINITY\s+([0-9.eE+-]+)\s*\n"},
     ],
-    "trusted": [],
-    "instances": [readValue],
+    "conformance": [
+        {"file": HPP, "regex": kw_absent, "absent": True,
+         "why": "every keyword literal handed to LPFhasKeyword in spxlpbase_real.hpp has its own hasKeyword_* instance"},
+        {"file": "src/soplex/spxlpbase_rational.hpp", "regex": kw_absent, "absent": True,
+         "why": "the rational reader hands LPFhasKeyword the same keyword literals"},
+        {"file": "src/soplex/nameset.h", "regex": r"int\s+number\(const\s+char\*\s+str\)\s+const", "why": "NameSet stub: number(const char*) const"},
+        {"file": "src/soplex/nameset.h", "regex": r"void\s+add\(const\s+char\*\s+str\);", "why": "NameSet stub: add(const char*)"},
+        {"file": "src/soplex/nameset.h", "regex": r"int\s+num\(\)\s+const", "why": "NameSet stub: num() const"},
+        {"file": "src/soplex/nameset.h", "regex": r"int\s+number\(const\s+char\*\s+str\)\s+const\s*\{.*?else\s+return\s+-1;\s*\}", "why": "NameSet::number returns -1 for unknown names"},
+        {"file": "src/soplex/lpcolsetbase.h", "regex": r"void\s+add\(const\s+LPColBase<R>&\s+pcol\)", "why": "LPColSetBase stub: add(const LPColBase<R>&)"},
+        {"file": "src/soplex/spxdefines.cpp", "regex": r"const\s+Real\s+infinity\s*=\s*SOPLEX_DEFAULT_INFINITY;", "why": "infinity is SOPLEX_DEFAULT_INFINITY"},
+    ],
+    "trusted": [
+        "C library models in unit.cpp: tolower (glibc table domain -128..255 asserted, \"C\" locale mapping), strchr (first occurrence or NULL)",
+        "atof, NameSet::number/num/add and LPColSetBase::add are ghost-recording stubs: they record the bytes they are handed at the ghost indices and return unconstrained values (NameSet::number assumed to return -1..num()-1, its documented range)",
+        "logging dropped: SPX_MSG_WARNING expands to nothing, SPxOut::debug is an empty stub; assert() compiled out (NDEBUG semantics)",
+        "line buffer capped at CAP=%d bytes (> SOPLEX_LPF_MAX_LINE_LEN); loop contracts are inductive, the cap bounds the object size only" % CAP,
+        "complete unwinding (with unwinding assertions) instead of a loop contract: the copy loop of LPFreadValue (bounded by the line length <= CAP; pos == line there), every loop of LPFhasKeyword (bounded by the length of the constant keyword literal), strchr on string literals (bounded by the literal)",
+        "LPFreadInfinity is proved against the contract of its callee LPFhasKeyword (pos stays inside the line and does not move backwards), which the hasKeyword_inf instance proves for the literal \"inf[inity]\"",
+        "R = double; `infinity` is SOPLEX_DEFAULT_INFINITY extracted from spxdefines.h",
+    ],
+    "instances": instances,
 }
 json.dump(unit, open(os.path.join(os.path.dirname(os.path.abspath(__file__)), "unit.json"), "w"), indent=1)
+print("%d instances" % len(instances))
